@@ -18,3 +18,22 @@ package definition
 //@   assigns nothing
 //@   ensures [hit] hasTr(l, lang, itemUUID, property) ==> result == l[lang][itemUUID][property]
 //@   ensures [miss] !hasTr(l, lang, itemUUID, property) ==> result == nil
+
+// ---- C20: every exit of a node whose router has a wait is listed as a waiting exit
+//@ pred listed(res []flows.ExitUUID, u flows.ExitUUID) bool opaque := exists j int :: 0 <= j && j < len(res) && res[j] == u
+//@ pred hasWait(n flows.Node) bool := (typeis(n.(*node).router, *routers.SwitchRouter) && n.(*node).router.(*routers.SwitchRouter) != nil && !isnil(n.(*node).router.(*routers.SwitchRouter).wait)) || (typeis(n.(*node).router, *routers.RandomRouter) && n.(*node).router.(*routers.RandomRouter) != nil && !isnil(n.(*node).router.(*routers.RandomRouter).wait))
+//@ pred nodesOK(f *flow) bool := f != nil && (forall a int :: 0 <= a && a < len(f.nodes) ==> nodeOK(f.nodes[a]))
+
+// the collecting closure: appends one exit UUID
+//@ func (f *flow) extractExitsFromWaits$1
+//@   reveal listed
+//@   ensures [added] forall u flows.ExitUUID :: listed(exitUUIDs, u) <==> (old(listed(exitUUIDs, u)) || u == e)
+
+//@ func (f *flow) extractExitsFromWaits
+//@   requires nodesOK(f)
+//@   ensures [waiting_exits_listed] forall a int, b int :: (0 <= a && a < len(f.nodes) && hasWait(f.nodes[a]) && 0 <= b && b < len(f.nodes[a].(*node).exits)) ==> listed(result, f.nodes[a].(*node).exits[b].(*exit).uuid)
+//@ loop 1
+//@   invariant forall a int, b int :: (0 <= a && a <= $i && hasWait(f.nodes[a]) && 0 <= b && b < len(f.nodes[a].(*node).exits)) ==> listed(exitUUIDs, f.nodes[a].(*node).exits[b].(*exit).uuid)
+//@ loop 2
+//@   invariant forall a int, b int :: (0 <= a && a <= $i1 && hasWait(f.nodes[a]) && 0 <= b && b < len(f.nodes[a].(*node).exits)) ==> listed(exitUUIDs, f.nodes[a].(*node).exits[b].(*exit).uuid)
+//@   invariant forall b int :: (0 <= b && b <= $i2) ==> listed(exitUUIDs, f.nodes[$i1 + 1].(*node).exits[b].(*exit).uuid)
